@@ -51,11 +51,11 @@ def run_overlap(write, i, E):
     steps, then the write (worker B) runs to completion, then the report finishes."""
     w = World(frontend="wsgi", prefix="/")
     try:
-        assert w.request("MKCALENDAR", BASE).status == 201
+        assert w.request("MKCALENDAR", BASE).status in range(200, 300)
         for n, k in (("a.ics", 1), ("b.ics", 3)):
-            assert w.request("PUT", BASE + n, [("Content-Type", "text/calendar")], gamma.model_body(k)[0]).status == 201
+            assert w.request("PUT", BASE + n, [("Content-Type", "text/calendar")], gamma.model_body(k)[0]).status in range(200, 300)
         old, oldtok = state_of(w)                       # the client's replica
-        assert w.request("PUT", BASE + "c.ics", [("Content-Type", "text/calendar")], gamma.model_body(7)[0]).status == 201
+        assert w.request("PUT", BASE + "c.ics", [("Content-Type", "text/calendar")], gamma.model_body(7)[0]).status in range(200, 300)
         s0, t0 = state_of(w)
         path = w.fspath(BASE.rstrip("/"))
 
@@ -89,7 +89,7 @@ def run_overlap(write, i, E):
             return {n: E(e) for n, e in m.items()}
         return {"write": list(write), "i": i, "gates": len([1 for (x, g) in sc.trace if x == "A"]),
                 "old": enc(old), "s0": enc(s0), "t0": E(t0), "s1": enc(s1), "t1": E(t1),
-                "write_ok": bool(rb and rb[0] == "ok" and rb[1].status in (201, 204)),
+                "write_ok": bool(rb and rb[0] == "ok" and rb[1].status in range(200, 300)),
                 "got": {"ok": got["ok"], "changed": enc(got["changed"]), "removed": got["removed"],
                         "token": E(got["token"]) if got["token"] else 0},
                 "stuck": sc.stuck}
